@@ -13,6 +13,25 @@ EIG_NOTE = ('the contracts of scipy eigsh/eigs/eigh/eig and of sparse.remove_nul
             'ordering, positivity/ascending order of computed values and sparse/dense agreement are not decidable by contracts and are not claimed')
 
 CHECKS = {
+ 'C14': dict(
+    category='proof',
+    text=('relational obligations between the real kernel texts (values extracted by the same symbolic execution as C02-C04): the w-only plate entries equal the (w,w) '
+          'block of the full plate (k0, kG0, kM); every monomial of cylinder minus plate carries a negative power of r; the conical kernel at sin=0, cos=1 equals the '
+          'cylinder integrand on each section and the sub-interval tables telescope to the full-interval ones (exhaustive lemma); the numerical kernel fkL_num at '
+          'NLgeom=0 equals weight times the analytic kernel value under the homomorphism "integral atom -> product of function values at the point"; the plate energy '
+          'Hessian is invariant under the x<->y exchange map; every monomial of the stiffness / geometric / mass entries is homogeneous of the weighted degrees that '
+          'give the similarity laws.'),
+    design_ref='DESIGN.md section 4 (C14)',
+    note=KERNEL_NOTE + '; eigenvalue consequences rest on the eigen-solver contracts (C05/C06) and the scaling argument, not re-proved; "tends to the plate" is read as O(1/r) entry-wise',
+    technique='relational contracts between kernel values and spec instances; exact normal form; exhaustive table lemma'),
+ 'C15': dict(
+    category='proof',
+    text=('premises of the Rayleigh-Ritz upper-bound argument: kernel entries are independent of the series orders (nested trial spaces), the index map is injective and the '
+          'smaller matrices are principal sub-matrices (z3, exhaustive over m<=30), K/KG/M are the exact Hessians (C02-C04), and the simply supported trial functions '
+          'vanish on the boundary (exact Bardell polynomials); the monotone upper-bound conclusion is by the cited min-max theorem.'),
+    design_ref='DESIGN.md section 4 (C15)',
+    note='the conclusion itself is NOT machine-checked (cited theorem); the limit clause (convergence to the closed-form values) and solver precision are not decidable by contracts and are not claimed',
+    technique='contracts on kernels (nestedness) + z3 LIA lemmas; cited spectral theorem'),
  'C08': dict(
     category='proof',
     text=('calc_fint, fkL_num and fkG_num of the flat and cylindrical numerical kernels are extracted and executed symbolically at a generic integration point '
